@@ -5,9 +5,9 @@ namespace TD.C08
 
 /-! ### the reader loop on a list of encoded blocks -/
 
-/-- `bs` is read as the block `cb` (unless `cb` is an empty byte string and nothing follows) -/
+/-- `bs` is read as the block `cb`, whatever follows -/
 def EncOk (bs : Bytes) (cb : Cb) : Prop :=
-  bs ≠ [] ∧ ∀ rest, (cb.val = some (.bytes []) → rest ≠ []) → readCb (bs ++ rest) = .ok (cb, rest)
+  bs ≠ [] ∧ ∀ rest, readCb (bs ++ rest) = .ok (cb, rest)
 
 def stepAll : List Cb → TS → Except Err TS
   | [], st => .ok st
@@ -17,8 +17,7 @@ theorem flatMap_ne_nil_of_cons {α} (p : Bytes × α) (r : List (Bytes × α)) (
     ((p :: r).flatMap (·.1)) ≠ [] := by
   simp [List.flatMap_cons, h]
 
-theorem tableLoop_enc (items : List (Bytes × Cb)) (hall : ∀ p ∈ items, EncOk p.1 p.2)
-    (hlast : ∀ p, items.getLast? = some p → p.2.val ≠ some (.bytes [])) :
+theorem tableLoop_enc (items : List (Bytes × Cb)) (hall : ∀ p ∈ items, EncOk p.1 p.2) :
     ∀ fuel st, items.length ≤ fuel → tableLoop fuel (items.flatMap (·.1)) st = stepAll (items.map (·.2)) st := by
   induction items with
   | nil => intro fuel st _; cases fuel <;> simp [tableLoop, stepAll]
@@ -31,19 +30,8 @@ theorem tableLoop_enc (items : List (Bytes × Cb)) (hall : ∀ p ∈ items, EncO
       have hne : (p :: r).flatMap (·.1) ≠ [] := flatMap_ne_nil_of_cons p r hp.1
       have hread : readCb ((p :: r).flatMap (·.1)) = .ok (p.2, r.flatMap (·.1)) := by
         rw [List.flatMap_cons]
-        apply hp.2
-        intro hv
-        cases r with
-        | nil => exact absurd hv (hlast p (by simp))
-        | cons q r' => exact flatMap_ne_nil_of_cons q r' (hall q (by simp)).1
-      have ih' := ih (fun q hq => hall q (by simp [hq]))
-        (by
-          intro q hq
-          apply hlast q
-          cases r with
-          | nil => simp at hq
-          | cons a b => simpa [List.getLast?_cons_cons] using hq)
-        fuel
+        exact hp.2 _
+      have ih' := ih (fun q hq => hall q (by simp [hq])) fuel
       unfold tableLoop
       split
       · rename_i heq; exact absurd heq hne
@@ -91,7 +79,7 @@ theorem indexLast_tcb {st st' : TS} (h : indexLast st = .ok st') : st'.tcb = st.
       · cases h; rfl
       · split at h
         · cases h; rfl
-        · cases h
+        · cases h; rfl
 
 theorem indexLast_cols {st st' : TS} (h : indexLast st = .ok st') : st'.cols = st.cols := by
   unfold indexLast at h
@@ -103,7 +91,7 @@ theorem indexLast_cols {st st' : TS} (h : indexLast st = .ok st') : st'.cols = s
       · cases h; rfl
       · split at h
         · cases h; rfl
-        · cases h
+        · cases h; rfl
 
 /-- one whole row through the reader: close the previous row, then append this one -/
 theorem stepAll_row (r : List Cb) (hr : RowOk r) (more : List Cb) (st : TS) (ht : st.tcb.isSome) :
@@ -168,42 +156,51 @@ def keptAux (seen : List (Option Val)) : List (List Cb) → List (List Cb)
 /-- the rows that survive: the first row of every name (Python `==` on names), in order -/
 def kept (rows : List (List Cb)) : List (List Cb) := keptAux [] rows
 
-/-- the row has no `MNEM` cell, or it holds a byte string (otherwise `Mnem.Mnem(...)` raises `TypeError`) -/
-def MnemOk (r : List Cb) : Prop :=
-  getByLabel r mnemMNEM = none ∨ ∃ c b, getByLabel r mnemMNEM = some c ∧ c.val = some (.bytes b)
-
 /-- all rows indexed, none pending -/
 structure Inv (st : TS) : Prop where
   names : st.rowIdx.map (·.1) = st.rows.map rowValue
   idx : st.rowIdx.map (·.2) = List.range st.rows.length
 
-theorem indexLast_push (r : List Cb) (st : TS) (hm : MnemOk r) (hinv : Inv st) :
+theorem indexLast_shape (st : TS) (last : List Cb) (hl : st.rows.getLast? = some last) :
+    ∃ st', indexLast st = .ok st' ∧ st'.tcb = st.tcb ∧ st'.cols = st.cols ∧
+      ((keyIn (rowValue last) st.rowIdx = true ∧ st'.rows = st.rows.dropLast ∧ st'.rowIdx = st.rowIdx) ∨
+       (keyIn (rowValue last) st.rowIdx = false ∧ st'.rows = st.rows ∧
+          st'.rowIdx = st.rowIdx ++ [(rowValue last, st.rows.length - 1)])) := by
+  unfold indexLast
+  rw [hl]
+  simp only
+  split
+  · rename_i h
+    exact ⟨_, rfl, rfl, rfl, Or.inl ⟨h, rfl, rfl⟩⟩
+  · rename_i h
+    have h' : keyIn (rowValue last) st.rowIdx = false := by simpa using h
+    split
+    · exact ⟨_, rfl, rfl, rfl, Or.inr ⟨h', rfl, rfl⟩⟩
+    · split
+      · exact ⟨_, rfl, rfl, rfl, Or.inr ⟨h', rfl, rfl⟩⟩
+      · exact ⟨_, rfl, rfl, rfl, Or.inr ⟨h', rfl, rfl⟩⟩
+
+theorem indexLast_push (r : List Cb) (st : TS) (hinv : Inv st) :
     ∃ st', indexLast (pushRow r st) = .ok st' ∧ st'.tcb = st.tcb ∧ st'.cols = incCols r st.cols ∧ Inv st' ∧
       st'.rows = (if (st.rows.map rowValue).any (fun s => keyEq s (rowValue r)) then st.rows else st.rows ++ [r]) := by
   have hkey : keyIn (rowValue r) st.rowIdx = (st.rows.map rowValue).any (fun s => keyEq s (rowValue r)) := by
     rw [← hinv.names]; simp [keyIn, List.any_map, Function.comp_def]
-  have hp : pushRow r st = ⟨st.tcb, st.rows ++ [r], st.rowIdx, st.mnemIdx, incCols r st.cols⟩ := rfl
-  rw [hp]
-  unfold indexLast
-  simp only [List.getLast?_append, List.getLast?_singleton, Option.some_or, hkey]
-  by_cases hk : (st.rows.map rowValue).any (fun s => keyEq s (rowValue r)) = true
-  · simp only [hk, if_true]
-    refine ⟨_, rfl, rfl, rfl, ?_, by simp⟩
-    constructor <;> simp [hinv.names, hinv.idx]
-  · simp only [hk, if_false]
-    have hInv' : ∀ mi, Inv (⟨st.tcb, st.rows ++ [r], st.rowIdx ++ [(rowValue r, (st.rows ++ [r]).length - 1)],
-        mi, incCols r st.cols⟩ : TS) := by
-      intro mi
-      constructor
-      · simp [hinv.names]
-      · simp [hinv.idx, List.range_succ]
-    rcases hm with hnone | ⟨c, b, hc, hv⟩
-    · rw [hnone]
-      exact ⟨_, rfl, rfl, rfl, hInv' _, by simp⟩
-    · rw [hc]; simp only [hv]
-      exact ⟨_, rfl, rfl, rfl, hInv' _, by simp⟩
+  obtain ⟨st', h1, ht, hc, hcase⟩ := indexLast_shape (pushRow r st) r (by simp [pushRow])
+  refine ⟨st', h1, ht, hc, ?_, ?_⟩
+  · rcases hcase with ⟨_, hr, hi⟩ | ⟨_, hr, hi⟩
+    · constructor
+      · rw [hi, hr]; simp [pushRow, hinv.names]
+      · rw [hi, hr]; simp [pushRow, hinv.idx]
+    · constructor
+      · rw [hi, hr]; simp [pushRow, hinv.names]
+      · rw [hi, hr]; simp [pushRow, hinv.idx, List.range_succ]
+  · rcases hcase with ⟨hk, hr, _⟩ | ⟨hk, hr, _⟩
+    · have : (st.rows.map rowValue).any (fun s => keyEq s (rowValue r)) = true := by rw [← hkey]; exact hk
+      rw [hr, this]; simp [pushRow]
+    · have : (st.rows.map rowValue).any (fun s => keyEq s (rowValue r)) = false := by rw [← hkey]; exact hk
+      rw [hr, this]; simp [pushRow]
 
-theorem runRows_spec (rows : List (List Cb)) (hm : ∀ r ∈ rows, MnemOk r) :
+theorem runRows_spec (rows : List (List Cb)) :
     ∀ st : TS, Inv st →
       ∃ fin, runRows rows st = .ok fin ∧ fin.tcb = st.tcb ∧ Inv fin ∧
         fin.rows = st.rows ++ keptAux (st.rows.map rowValue) rows ∧
@@ -212,8 +209,8 @@ theorem runRows_spec (rows : List (List Cb)) (hm : ∀ r ∈ rows, MnemOk r) :
   | nil => intro st hinv; exact ⟨st, rfl, rfl, hinv, by simp [keptAux], by simp [incCols]⟩
   | cons r rs ih =>
     intro st hinv
-    obtain ⟨st', h1, ht, hc, hinv', hrows⟩ := indexLast_push r st (hm r (by simp)) hinv
-    obtain ⟨fin, h2, ht2, hinv2, hrows2, hc2⟩ := ih (fun x hx => hm x (by simp [hx])) st' hinv'
+    obtain ⟨st', h1, ht, hc, hinv', hrows⟩ := indexLast_push r st hinv
+    obtain ⟨fin, h2, ht2, hinv2, hrows2, hc2⟩ := ih st' hinv'
     refine ⟨fin, ?_, by rw [ht2, ht], hinv2, ?_, ?_⟩
     · simp only [runRows, h1, Except.bind]; exact h2
     · rw [hrows2, hrows]
